@@ -22,10 +22,8 @@
 #include <math.h>
 #include <stdlib.h>
 
-const double FAC_LIST[24] = {-SQRT2, SQRT2, -SQRT2, SQRT2, -SQRT2, SQRT2,
-                             -SQRT2, SQRT2, -SQRT2, SQRT2, -SQRT2, SQRT2,
-                             -SQRT2, SQRT2, -SQRT2, SQRT2, -SQRT2, SQRT2,
-                             -SQRT2, SQRT2, -SQRT2, SQRT2, -SQRT2, SQRT2};
+// (-1)^(m+1) * sqrt(2), valid for any m (no fixed-size table)
+#define FAC_LIST(m) (((m)&1) ? SQRT2 : -SQRT2)
 
 sphbuf setup_sph_harm_buffer(int nlm) {
     sphbuf buf;
@@ -96,8 +94,11 @@ void recursive_sph_harm(sphbuf buf, double *restrict r, double *restrict res) {
     double fac;
 
     ylm[0 * lp1 + 0] = SPHF0;
-    ylm[1 * lp1 + 0] = SQRT3 * SPHF0 * z;
     res[0] = SPHF0;
+    if (buf.lmax < 1) {
+        return; // nlm == 1: there is no room for the l=1 entries
+    }
+    ylm[1 * lp1 + 0] = SQRT3 * SPHF0 * z;
     res[2] = creal(ylm[1 * lp1 + 0]);
     // res[3] = creal(ylm[1*lp1+0]);
 
@@ -116,8 +117,8 @@ void recursive_sph_harm(sphbuf buf, double *restrict r, double *restrict res) {
             ind = l * lp1 + m;
             ylm[ind + lp1 + 1] =
                 coef0[ind] * ylm[ind - lp1 + 1] + coef1[ind] * xy * ylm[ind];
-            res[lm - m - 1] = FAC_LIST[m] * cimag(ylm[ind + lp1 + 1]);
-            res[lm + m + 1] = FAC_LIST[m] * creal(ylm[ind + lp1 + 1]);
+            res[lm - m - 1] = FAC_LIST(m) * cimag(ylm[ind + lp1 + 1]);
+            res[lm + m + 1] = FAC_LIST(m) * creal(ylm[ind + lp1 + 1]);
         }
     }
 }
@@ -155,6 +156,9 @@ void recursive_sph_harm_deriv(sphbuf buf, double *r, double *res,
     dresx[0] = 0.0;
     dresy[0] = 0.0;
     dresz[0] = 0.0;
+    if (buf.lmax < 1) {
+        return; // nlm == 1: there is no room for the l=1 entries
+    }
 
     ind = 1 * lp1;
     ylm[ind] = SQRT3 * SPHF0 * z;
